@@ -110,6 +110,10 @@ func checkC14(r *harness.Run) harness.Coverage {
 	}
 	var all []string
 	stringsOver(sigma14, n, func(s string) { all = append(all, s) })
+	// longer strings whose plain characters LOOK like escape sequences, surrogate escapes, format verbs or
+	// delimiters (a scan of the undecoded text that does not pair backslashes takes them for the real thing)
+	all = append(all, `\ud83d`, `C:\udc00\x`, `\uD83D\uDE00`, `\u0041`, `\n`, `\\n`, `a\tb`, `\x41`, `%s%d`, `\u00e9`, `\ud800`, `\udfff\ud800`, `\u`, `\u12`, `\U0001F600`,
+		"`", "a`b", "```", "`\\`", `"\"`, `'\`+"`", `\"\"\"`, `{"a": 1}`, `[1, 2]`, `null`, `a.b[0]`, `&a`, `@`, `*`, `||`, `\b\f\r`, `\ud83d\ude00 😀`, `\/`, `</script>`, `\u2028`+"\u2028", `a\`+"\n"+`b`)
 	var cases, nontriv int64
 	marker := "MARK"
 	report := func(kind, sig, expr string, doc interface{}, exp, obs string) {
